@@ -139,9 +139,10 @@ Inductive runres := RGoing | RQuiet | RRaised (e : exn) | RFuel.
 Record mstate := mkM {
   ob : objs;
   acts : list astate;
-  result : runres
+  result : runres;
+  klog : list kop      (* ghost: kernel requests issued during the current activation, in order *)
 }.
-#[export] Instance eta_m : Settable _ := settable! mkM <ob; acts; result>.
+#[export] Instance eta_m : Settable _ := settable! mkM <ob; acts; result; klog>.
 
 (** ** tables *)
 Fixpoint list_upd {A} (l : list A) (i : nat) (x : A) : list A :=
@@ -204,7 +205,7 @@ Definition step1 (cur : aid) (m : mstate) (md : mode) (c : ctx) (outer : list ct
           match f (ob m) cur with
           | mkpres o' ops sp r =>
               let o'' := set_kern o' (kapply_all (kern (ob m)) ops) in
-              let m' := add_acts (m <| ob := o'' |>) sp in
+              let m' := add_acts (m <| ob := o'' |> <| klog := klog m ++ ops |>) sp in
               match r with
               | inl v => SCont m' (MRun (k v)) c outer
               | inr e => SCont m' (MThrow e) c outer
@@ -284,7 +285,7 @@ Definition resume (fuel : nat) (m : mstate) (act : activation) : mstate :=
 Definition mstep (fuel : nat) (m : mstate) : mstate :=
   match next (kern (ob m)) with
   | None => m <| result := RQuiet |>
-  | Some (act, k') => resume fuel (m <| ob := set_kern (ob m) k' |>) act
+  | Some (act, k') => resume fuel (m <| ob := set_kern (ob m) k' |> <| klog := [] |>) act
   end.
 
 Fixpoint mrun (n : nat) (fuel : nat) (m : mstate) : mstate :=
